@@ -8,7 +8,9 @@ the device received must be exactly the concatenation of those writes.
 Enumerated: every operation x {each byte of the device id, the key, each byte of the session id,
 each byte of the clock (plus the .5 rounding boundary)} over all 256 values (quick: 24 values),
 IR texts of every length 1..2000 through the main and the separate swing command, every name of
-mc/apicases.name_domain, and the complete argument sweep of C02.
+mc/apicases.name_domain, the complete argument sweep of C02, and - after a good login - every step of every
+operation answered with a truncated / corrupted / empty / over-long reply (frames written on any retry or
+follow-up path must be well formed too).
 """
 from mc import apicases as A
 from mc.apiworld import OPS
@@ -89,6 +91,18 @@ def all_cases(tier, seed):
     # the argument sweep of C02
     for kind, op, args in A.arg_cases(tier):
         cases.append(mk(op, args))
+    # faulty replies after a good login: whatever the client writes next (retries included) must still be well formed
+    from props import c09
+
+    for op in OPS:
+        valid = c09.valid_replies(op)
+        for step in range(1, len(valid)):
+            faults = [("eof",), ("long",), ("half",)] + [("prefix", n) for n in range(1, len(valid[step]), 1 if tier == "thorough" else 3)]
+            faults += [("fill", n, b) for n in (1, 4, 12, 44, 48, 107) for b in (0x00, 0xFF)]
+            for i in range(0, len(valid[step]), 1 if tier == "thorough" else 4):
+                faults.append(("corrupt", i, valid[step][i] ^ 0xFF))
+            for f in faults:
+                cases.append(mk(op, faults={str(step): list(f)}))
     return cases
 
 
@@ -98,7 +112,7 @@ def jobs(tier, seed):
 
 
 def _key(case):
-    return (case["op"], case["args"], case["id"], case["key"], case["session"], case["now"])
+    return (case["op"], case["args"], case["id"], case["key"], case["session"], case["now"], case.get("faults"))
 
 
 def run_job(job):
